@@ -34,7 +34,7 @@ C[PA + 'strip'] = dict(params=dict(self='Annotation', inplace='bool'), returns='
                        requires=[('copy-mode', 'not inplace')], bounded_by=_EQP,
                        ensures=[('copy-has-the-residues-and-no-modification', 'bare(result, self._sequence)')])
 C[PA + 'serialize'] = dict(params=dict(self='Annotation', include_plus='bool'), returns='str', pure=True, trusted=True,
-                           bounded_by='single-chain serializer: round trip checked by bounded/C01.py', ensures=[])
+                           bounded_by='single-chain serializer: layout proved in contracts/serial.py (C01); parser-inverts-writer round trip bounded/C01.py', ensures=[])
 C[MC + 'mass'] = dict(params=dict(sequence='Annotation'), returns='real', pure=True, trusted=True,
                       bounded_by='the mass calculator: checked against the reference calculator by bounded/C02.py', ensures=[])
 C[MC + 'mod_mass'] = dict(params=dict(mod='ModList_item'), returns='real', pure=True, trusted=True,
